@@ -1,4 +1,5 @@
 import Cutadapt.Proofs.Scan
+import Cutadapt.Generated.QualWiring
 /-! # C13 — quality trimming removes exactly the BWA-defined low-quality ends
 
 Model: `Cutadapt.Qualtrim` (`quality_trim_index`, `nextseq_trim_index` of `src/cutadapt/qualtrim.pyx`).
@@ -230,5 +231,41 @@ theorem trimmed_bases_count (quals : Bytes) (cf cb base : Int) (xs : List α) (h
 example : qualityTrimIndex [73,73,73,73,35,73,35,35] 10 10 33 = (0, 6) := by decide
 example : qualityTrimIndex [35,35,73,73] 10 10 33 = (2, 4) := by decide
 example : nextseqTrimIndex [65,67,71,71] [73,73,73,73] 10 33 = 2 := by decide
+
+/-! ## The quality-trimming options of the real program (regenerated from the working tree on every run) -/
+
+/-- the cutoffs the documented notation gives the probe options: `-q X` = 3' cutoff X, `-q X,Y` = 5' cutoff X and 3' cutoff Y (the same for
+    `-Q` on R2; `-q` alone applies to R2 as well), `--nextseq-trim X` -/
+def probeOption : String → Option (Sum (Int × Int) Int)
+  | "q10" => some (.inl (0, 10))
+  | "q15_20" => some (.inl (15, 20))
+  | "q0_12" => some (.inl (0, 12))
+  | "q26" => some (.inl (0, 26))
+  | "Q10" => some (.inl (0, 10))
+  | "Q20_5" => some (.inl (20, 5))
+  | "q15_as_R2" => some (.inl (0, 15))
+  | "nextseq15" => some (.inr 15)
+  | "nextseq28" => some (.inr 28)
+  | "nextseq15_R2" => some (.inr 15)
+  | _ => none
+
+/-- what the model keeps of a probe (sequence, phred values) whose qualities are encoded with `base` -/
+def modelKept (opt : String) (probe : List UInt8 × List Nat) (base : Nat) : Option (Nat × Nat) :=
+  let quals : Bytes := probe.2.map (fun v => UInt8.ofNat (v + base))
+  match probeOption opt with
+  | some (.inl (f, b)) => some (qualityTrimIndex quals f b base)
+  | some (.inr c) => some (if nextseqTrimIndex probe.1 quals c base = 0 then (0, 0) else (0, nextseqTrimIndex probe.1 quals c base))
+  | none => none
+
+/-- **Every quality-trimming option of the real program keeps the interval the BWA rule defines, for both quality encodings** (probe reads
+    through the command-line program with `--quality-base 33` and `64`, `-q`/`-Q` with one and two cutoffs, `--nextseq-trim`, on R1 and on R2):
+    the observed interval does not depend on the encoding and is what `qualityTrimIndex` / `nextseqTrimIndex` (to which `trim3_spec`,
+    `trim5_spec`, `nextseq_spec` and `base_shift_invariant` apply) compute on the same phred values. -/
+theorem generated_quality_wiring :
+    ∀ row ∈ Generated.qualKept,
+      row.2.2.1 = row.2.2.2 ∧
+      (Generated.qualProbes[row.2.1]?).bind (modelKept row.1 · 33) = some row.2.2.1 ∧
+      (Generated.qualProbes[row.2.1]?).bind (modelKept row.1 · 64) = some row.2.2.2 := by
+  decide
 
 end Cutadapt.C13
